@@ -160,6 +160,20 @@ def solve_frames(tdgl, a, tmp):
             offset = frames[-1]["step"]
             prev_seed = seed
             seed = sol
+            # "a saved final state": the seed is the returned object, or the same state read back from its file,
+            # or from a copy written with Solution.to_hdf5 (all ordinary ways of continuing a run)
+            form = a.get("seed_form", "memory")
+            if form == "reloaded":
+                seed = tdgl.Solution.from_hdf5(sol.path)
+            elif form == "reloaded_last":
+                seed = tdgl.Solution.from_hdf5(sol.path, solve_step=-1)
+            elif form == "resaved":
+                cp = os.path.join(work, f"seedcopy{n}.h5")
+                sol.to_hdf5(cp)
+                seed = tdgl.Solution.from_hdf5(cp)
+            elif form == "cursor_moved":
+                sol.solve_step = 0          # history on the seed object: the cursor was moved and moved back
+                sol.solve_step = -1
         if a.get("seed_twice") and len(pieces) > 1:
             # history on the seed object: a SECOND continuation from the same in-memory seed Solution must
             # reproduce the first one bit for bit (same observation keys), and the seed must be unchanged
